@@ -444,17 +444,22 @@ pub(crate) fn run_scheduling_solver(
             let v_id = ResourceVariantId::new(0);
             let n_nodes = rqv.get(v_id).n_nodes() as usize;
             let mut ws: Vec<ThinVec<WorkerId>> = Vec::new();
+            // Index of a not yet complete worker list for each worker group;
+            // workers of one task have to be from the same group
+            let mut open_lists: Map<&str, usize> = Map::new();
             for worker in &workers {
                 if let Some(v) = placements.get(&(worker.id, resource_rq_id, v_id)) {
                     let count = solution.get_value(*v).round() as u32;
                     if count > 0 {
-                        if let Some(last) = ws.last_mut()
-                            && last.len() < n_nodes
+                        let group = worker.configuration.group.as_str();
+                        if let Some(idx) = open_lists.get(group).copied()
+                            && ws[idx].len() < n_nodes
                         {
-                            last.push(worker.id);
+                            ws[idx].push(worker.id);
                         } else {
                             let mut workers = ThinVec::with_capacity(n_nodes);
                             workers.push(worker.id);
+                            open_lists.insert(group, ws.len());
                             ws.push(workers);
                         }
                     }
